@@ -100,6 +100,26 @@ impl<S: BitmapSlice + Send + Sync> PassthroughFs<S> {
 
     /// Return the `d_off` of the last dirent in a `getdents64` buffer, or
     /// `None` if the buffer is empty.
+    /// True if `buf` holds `getdents64` records and every one of them is "." or "..".
+    fn only_dot_entries(mut buf: &[u8]) -> bool {
+        let mut any = false;
+        while buf.len() >= size_of::<LinuxDirent64>() {
+            let dirent64 = LinuxDirent64::from_slice(&buf[..size_of::<LinuxDirent64>()])
+                .expect("fuse: unable to get LinuxDirent64 from slice");
+            let reclen = dirent64.d_reclen as usize;
+            if reclen < size_of::<LinuxDirent64>() || reclen > buf.len() {
+                return false;
+            }
+            let name = &buf[size_of::<LinuxDirent64>()..reclen];
+            if !(name.starts_with(CURRENT_DIR_CSTR) || name.starts_with(PARENT_DIR_CSTR)) {
+                return false;
+            }
+            any = true;
+            buf = &buf[reclen..];
+        }
+        any
+    }
+
     fn last_cookie_in_buf(mut buf: &[u8]) -> Option<u64> {
         let mut last = None;
         while buf.len() >= size_of::<LinuxDirent64>() {
@@ -203,21 +223,28 @@ impl<S: BitmapSlice + Send + Sync> PassthroughFs<S> {
             };
 
             if seek_ok {
-                // Safe because the kernel guarantees that it will only write to `buf` and we check
-                // the return value.
-                let res = unsafe {
-                    libc::syscall(
-                        libc::SYS_getdents64,
-                        dir.as_raw_fd(),
-                        buf.as_mut_ptr() as *mut LinuxDirent64,
-                        size as libc::c_int,
-                    )
-                };
-                if res < 0 {
-                    return Err(io::Error::last_os_error());
+                // With a small `size` a batch may hold nothing but "." and "..", which are
+                // never passed on: keep reading, or the empty reply would end the listing early.
+                loop {
+                    // Safe because the kernel guarantees that it will only write to `buf` and we
+                    // check the return value.
+                    let res = unsafe {
+                        libc::syscall(
+                            libc::SYS_getdents64,
+                            dir.as_raw_fd(),
+                            buf.as_mut_ptr() as *mut LinuxDirent64,
+                            size as libc::c_int,
+                        )
+                    };
+                    if res < 0 {
+                        return Err(io::Error::last_os_error());
+                    }
+                    // Safe because we trust the value returned by kernel.
+                    unsafe { buf.set_len(res as usize) };
+                    if res == 0 || !Self::only_dot_entries(&buf) {
+                        break;
+                    }
                 }
-                // Safe because we trust the value returned by kernel.
-                unsafe { buf.set_len(res as usize) };
             } else {
                 // Fallback for cookies the kernel cannot `lseek()` to: rewind and walk batches with
                 // `getdents64` until the entry whose `d_off == offset` is consumed, then return the
